@@ -7,11 +7,12 @@ EMPTY_COVERAGE = dict(states=0, transitions=0, traces_validated_against_impl=0, 
 OPTS = {"asm": [], "c64": ["-DBACKEND_C64=ON"], "c32": ["-DBACKEND_C32=ON"], "dxor": ["-DBACKEND_DIRECT_XOR=ON"], "generic": ["-DBACKEND_GENERIC=ON"]}
 
 
-def release_lib(be, cc):
-    d = build.cmake_release(OPTS[be] + ["-DMINIMAL=ON"], tag="c13", cc=cc, targets=("ascon_static",))
+def release_lib(be, cc, tr=None):
+    extra = [] if tr is None else ["-DKEY_SHARES=%d" % tr[0], "-DDATA_SHARES=%d" % tr[1], "-DMAX_SHARES=%d" % tr[2]]
+    d = build.cmake_release(OPTS[be] + ["-DMINIMAL=ON"] + extra, tag="c13", cc=cc, targets=("ascon_static",))
     lib = os.path.join(d, "src", "libascon_static.a")
     return dict(lib=lib, inc=["-I" + os.path.join(build.REPO, "src"), "-I" + os.path.join(build.REPO, "src", "ascon"), "-I" + d], dir=d, cflags=[],
-                cc=cc, cxx={"gcc": "g++", "clang": "clang++"}[cc], sanflags=[], desc="cmake Release %s %s" % (be, cc))
+                cc=cc, cxx={"gcc": "g++", "clang": "clang++"}[cc], sanflags=[], desc="cmake Release %s %s%s" % (be, cc, "" if tr is None else " k%dd%dm%d" % tr))
 
 
 def run(ctx):
@@ -21,10 +22,14 @@ def run(ctx):
     if t:
         cfgs = [(be, cc) for be in OPTS for cc in ("gcc", "clang")]
     jobs = []
-    for be, cc in cfgs:
-        name = "%s-%s-release" % (be, cc)
+    # the size of the masked objects' internal words depends on the share configuration
+    cfgs = [c + (None,) for c in cfgs] + [("asm", "gcc", tr) for tr in ([(2, 1, 2), (3, 2, 3), (2, 2, 4), (3, 3, 3)] if not t else [x for x in build.ALL_TRIPLES if x != build.DEFAULT_TRIPLE])]
+    if t:
+        cfgs += [("c32", "gcc", (2, 1, 2)), ("c64", "clang", (3, 3, 3))]
+    for be, cc, tr in cfgs:
+        name = "%s-%s-release%s" % (be, cc, "" if tr is None else "-k%dd%dm%d" % tr)
         try:
-            lib = release_lib(be, cc)
+            lib = release_lib(be, cc, tr)
             c = build.build_prog("c13", ["harness/c13.c", "harness/sysrand.c"], lib, opt="-O3", cfg_dep=True)
             cpp = build.build_prog("c13cpp", ["harness/c13.cpp", "harness/sysrand.c"], lib, opt="-O3", cfg_dep=True)
         except build.BuildError as e:
@@ -32,7 +37,7 @@ def run(ctx):
             continue
         ctx.configs.append(lib["desc"])
         jobs.append((c, [maxh], name))
-        jobs.append((cpp, [maxh if be == "asm" else 2], name))
+        jobs.append((cpp, [maxh if (be == "asm" and tr is None) else 2], name))
     common.parallel(lambda j: common.run_harness(ctx, j[0], j[1], label=j[2]), jobs)
     ctx.assumptions += [
         "artefact = the repository's own CMake Release build (-O3) of the static library; the C++ scenarios are compiled at -O3 as well because the header-only destructors are compiled into the user's translation unit",
@@ -42,6 +47,6 @@ def run(ctx):
     cov = dict(states=ctx.stats.get("states", 0), transitions=ctx.stats.get("transitions", 0),
                traces_validated_against_impl=ctx.stats.get("traces_validated", 0), object_types=ctx.stats.get("object_types", 0),
                rule="23 C object types and 16 C++ classes x every operation history of length <= %d over a 4-operation alphabet per type x terminal {free | destructor | clear()} x 2 secret assignments, "
-                    "on the CMake Release library of each configuration in %s" % (maxh, [c[0] + "/" + c[1] for c in cfgs]),
+                    "on the CMake Release library of each configuration in %s" % (maxh, [c[0] + "/" + c[1] + ("" if c[2] is None else "/k%dd%dm%d" % c[2]) for c in cfgs]),
                exhaustive=True)
     return LEVEL, cov
